@@ -65,6 +65,9 @@ def build_harness(race=False, tags="verif"):
         cmd = ["go", "build", "-tags", tags, "-o", tmp]
         if race:
             cmd.append("-race")
+        if os.environ.get("VERIF_COVER") and not race:
+            # audit mode (tools/coverage_audit.sh): statement coverage of the library under the checks, GOCOVERDIR set by the caller
+            cmd += ["-cover", "-coverpkg=github.com/protobom/protobom/pkg/...,verifharness/..."]
         cmd.append("./cmd/vh")
         p = subprocess.run(cmd, cwd=hdir, env=GOENV, capture_output=True, text=True)
         if p.returncode != 0:
